@@ -444,6 +444,11 @@ func runC06(t *testing.T, c AuditCase) (*h.Violation, h.Info) {
 		} else {
 			// the audit sink failed now or earlier: fail closed unless a proper record exists
 			needs := minRec == 1 || (delivered && op.Kind == "cond")
+			if needs && !recordOK && op.Kind == "cond" && allowed && want.Class == model.OK && got.Class == model.NotChanged {
+				// "not changed" is a regular answer, not a failure: the poller would go on believing that
+				// the version it holds is current
+				return h.V("fail-closed", "step %d %s: the audit record for a conditional get that finds a newer version could not be written (write failed=%v sync failed=%v, sink broken=%v) and the call answered 'not changed' - the request must FAIL", i, op, writeFailed, syncFail, broken), info
+			}
 			if needs && !recordOK {
 				if got.Class == model.OK || delivered {
 					return h.V("fail-closed", "step %d %s: the audit record could not be written/synced (write failed=%v sync failed=%v, sink broken=%v) but the call succeeded: %s", i, op, writeFailed, syncFail, broken, got), info
